@@ -173,6 +173,47 @@ def build(c, key):
     return mod, exp
 
 
+def lifetime_module():
+    """An enum with a lifetime parameter of its own (a borrowed field and an INVARIANT one, Cell<&'a _>): the reference forms of
+    every accessor borrow the value only for the call - mutable accessors can be called one after another, the value is
+    used in between, and the owned forms still work afterwards."""
+    k = "lifetimes"
+    mod = r"""use super::*;
+use core::cell::Cell;
+use core::convert::TryFrom;
+#[derive(derive_more::IsVariant, derive_more::Unwrap, derive_more::TryUnwrap, derive_more::TryInto)]
+#[unwrap(owned, ref, ref_mut)]
+#[try_unwrap(owned, ref, ref_mut)]
+#[try_into(owned, ref, ref_mut)]
+pub enum L<'a> { First(&'a A), Second(Cell<&'a B>), Both(&'a A, Cell<&'a B>) }
+pub fn run() {
+    let (a1, a2, b1, b2) = (A(1), A(2), B(3), B(4));
+    let mut rows: Vec<String> = vec![];
+    let mut l = L::First(&a1);
+    { let r: &&A = l.unwrap_first_ref(); rows.push(format!("ref {}", ad(r) == ad(match &l { L::First(x) => x, _ => unreachable!() }))); }
+    { let r: &mut &A = l.unwrap_first_mut(); *r = &a2; }
+    { let r: &mut &A = l.try_unwrap_first_mut().ok().unwrap(); *r = &a1; }
+    { let r: &mut &A = <&mut &A>::try_from(&mut l).ok().unwrap(); *r = &a2; }
+    rows.push(format!("after_mut {} {}", l.is_first(), l.unwrap_first_ref().0));
+    let mut m = L::Second(Cell::new(&b1));
+    { let c: &Cell<&B> = m.unwrap_second_ref(); c.set(&b2); }
+    { let c: &Cell<&B> = m.try_unwrap_second_ref().ok().unwrap(); rows.push(format!("cell {}", c.get().0)); }
+    { let c: &mut Cell<&B> = m.unwrap_second_mut(); c.set(&b1); }
+    { let c: &mut Cell<&B> = <&mut Cell<&B>>::try_from(&mut m).ok().unwrap(); c.set(&b2); }
+    { let c: &Cell<&B> = <&Cell<&B>>::try_from(&m).ok().unwrap(); rows.push(format!("cell2 {}", c.get().0)); }
+    let mut n = L::Both(&a1, Cell::new(&b1));
+    { let (x, y): (&mut &A, &mut Cell<&B>) = n.unwrap_both_mut(); *x = &a2; y.set(&b2); }
+    { let (x, y): (&mut &A, &mut Cell<&B>) = <(&mut &A, &mut Cell<&B>)>::try_from(&mut n).ok().unwrap(); *x = &a1; let _ = y; }
+    { let (x, y): (&&A, &Cell<&B>) = n.try_unwrap_both_ref().ok().unwrap(); rows.push(format!("both {} {}", x.0, y.get().0)); }
+    let x: &A = l.unwrap_first(); let y: Cell<&B> = m.try_unwrap_second().ok().unwrap();
+    let (p, q): (&A, Cell<&B>) = <(&A, Cell<&B>)>::try_from(n).ok().unwrap();
+    rows.push(format!("owned {} {} {} {}", x.0, y.get().0, p.0, q.get().0));
+    report("lifetimes", &rows);
+}"""
+    exp = ["ref true", "after_mut true 2", "cell 4", "cell2 4", "both 1 4", "owned 2 4 1 4"]
+    return k, mod, exp
+
+
 def run(chk, tier, seed, replay):
     chk.assumptions += ["field types are two tagged types A, B (optionally a type parameter instantiated with A); variant names "
                         "Foo, FooBar, Ab (accessor names foo, foo_bar, ab), a raw identifier, and names with leading / doubled / "
@@ -202,6 +243,10 @@ def run(chk, tier, seed, replay):
     mods, exps = [], {}
     for k, c in cases.items():
         m, e = build(c, k)
+        mods.append((k, m))
+        exps[k] = (e, m)
+    if not replay or json.load(open(replay))["key"] == "lifetimes":
+        k, m, e = lifetime_module()
         mods.append((k, m))
         exps[k] = (e, m)
     log(f"[C11] {len(mods)} enums")
